@@ -219,7 +219,26 @@ def array_failures(d, b_d=None, st=None):
         check_entries(fails, st, "add", (("method", lambda: x + y),), arr_verify(sym, X + Y, fr, x.duals, x.charge))
         check_entries(fails, st, "sub", (("method", lambda: x - y),), arr_verify(sym, X - Y, fr, x.duals, x.charge))
         check_entries(fails, st, "mul", (("method", lambda: x * y), ("commuted", lambda: y * x)), arr_verify(sym, X * Y, fr, x.duals, x.charge))
+        inplace_binary(sym, x, y, X, Y, fr, fails, st)
     return fails, nontrivial
+
+
+def inplace_binary(sym, x, y, X, Y, fr, fails, st):
+    """augmented assignment on a library copy of the left operand"""
+    import operator as op
+
+    def aug(f):
+        def run():
+            z = x.copy()
+            return f(z, y)
+
+        return run
+
+    check_entries(fails, st, "iadd", (("method", aug(op.iadd)),), arr_verify(sym, X + Y, fr, x.duals, x.charge))
+    check_entries(fails, st, "isub", (("method", aug(op.isub)),), arr_verify(sym, X - Y, fr, x.duals, x.charge))
+    check_entries(fails, st, "imul", (("method", aug(op.imul)),), arr_verify(sym, X * Y, fr, x.duals, x.charge))
+    check_entries(fails, st, "imul-scalar", (("method", lambda: op.imul(x.copy(), 3.0)),), arr_verify(sym, X * 3.0, fr, x.duals, x.charge))
+    check_entries(fails, st, "itruediv-scalar", (("method", lambda: op.itruediv(x.copy(), 4.0)),), arr_verify(sym, X / 4.0, fr, x.duals, x.charge))
 
 
 def second_operands(d):
@@ -295,6 +314,11 @@ def vector_failures(sym, table, stored_a, stored_b, dtype, st=None):
         nr = float(np.linalg.norm(A_own))
         check_entries(fails, st, "bv.norm", (("method", lambda: a.norm()),), lambda c: [] if abs(c - nr) <= 1e-12 * max(1, nr) else [("value", f"{c} vs {nr}")])
     # vector-vector
+    import operator as op
+
+    check_entries(fails, st, "bv.iadd", (("method", lambda: op.iadd(a.copy(), b)),), vver(A + B, table))
+    check_entries(fails, st, "bv.isub", (("method", lambda: op.isub(a.copy(), b)),), vver(A - B, table))
+    check_entries(fails, st, "bv.imul", (("method", lambda: op.imul(a.copy(), b)),), vver(A * B, table))
     check_entries(fails, st, "bv.add", (("method", lambda: a + b),), vver(A + B, table))
     check_entries(fails, st, "bv.sub", (("method", lambda: a - b),), vver(A - B, table))
     check_entries(fails, st, "bv.mul", (("method", lambda: a * b), ("commuted", lambda: b * a)), vver(A * B, table))
@@ -383,6 +407,7 @@ def binary_only(d, b_d, st):
     check_entries(fails, st, "add", (("method", lambda: x + y),), arr_verify(sym, X + Y, fr, x.duals, x.charge))
     check_entries(fails, st, "sub", (("method", lambda: x - y),), arr_verify(sym, X - Y, fr, x.duals, x.charge))
     check_entries(fails, st, "mul", (("method", lambda: x * y), ("commuted", lambda: y * x)), arr_verify(sym, X * Y, fr, x.duals, x.charge))
+    inplace_binary(sym, x, y, X, Y, fr, fails, st)
     return fails, set(x.blocks) != set(y.blocks) and bool(x.blocks) and bool(y.blocks)
 
 
